@@ -16,6 +16,8 @@ Nodes (size = number of nodes; a lambda is part of the node that introduces it):
   ('app',body,arg,kw)            (lambda x: body)(arg)   kw: (lambda x: body)(x=arg)
   ('tup',elts) ('lst',elts) ('dic',keys,elts)   packages
   ('idx',pkg,i) ('key',pkg,k) ('dattr',pkg,k)   constant projections  p[i]  p['k']  p.k
+  ('sidx',seq,sel)               seq[sel]: subscript of a sequence-valued expression by an Int expression
+  ('hof',body,arg)               (lambda f: f(arg))(lambda x: body): a lambda handed to a called lambda, applied by name
   ('idxv',pkg,sel)               non-constant / odd selector forms (C18 only), sel is a source fragment tag
 """
 import itertools
@@ -233,6 +235,19 @@ class Grammar:
                                     continue
                                 for f in self.forms:
                                     yield (rt, ("op", op, f, a, b))
+                if "sidx" in P:
+                    for t1, a in L:
+                        if isinstance(t1, tuple) and t1[0] == "Seq":
+                            for t2, b in self.gen(ctx, n2):
+                                if t2 == INT:
+                                    yield (t1[1], ("sidx", a, b))
+                if "hof" in P:
+                    for t2, arg in self.gen(ctx, n2):
+                        if t2 == BOOL:
+                            continue
+                        for tb, body in self.gen(ctx + (t2,), n1):
+                            if self.pkg_depth_of(tb) <= self.pkg_depth:
+                                yield (tb, ("hof", body, arg))
                 # called lambda: body of size n1 under binder of arg's type, arg of size n2
                 if "app" in P:
                     for t2, arg in self.gen(ctx, n2):
@@ -328,8 +343,18 @@ def binder_info(term, nctx=0):
             k = t[1]
             b = stack[len(stack) - 1 - k]
             refs.append((b, tuple(stack[len(stack) - k:])))
-        elif tag in ("ds", "const"):
+        elif tag == "ds":
+            refs.append((DSID, tuple(stack)))  # the free name `ds` must not be captured by a binder named ds
+        elif tag == "const":
             pass
+        elif tag == "hof":
+            bf = counter[0]
+            bx = counter[0] + 1
+            counter[0] += 2
+            k0 = len(refs)
+            walk(t[2], stack)  # the argument sits under the binder f (which its de Bruijn indices skip)
+            refs[k0:] = [(b, inter + (bf,)) for b, inter in refs[k0:]]
+            walk(t[1], stack + [bx])
         elif tag == "op":
             walk(t[3], stack)
             bid = counter[0]
@@ -367,7 +392,9 @@ def binder_info(term, nctx=0):
     return counter[0], refs
 
 
-_TAGS = {"ds", "var", "attr", "meth", "const", "bin", "neg", "not", "cmp", "bool", "ifexp", "op",
+DSID = -1000
+
+_TAGS = {"sidx", "hof", "ds", "var", "attr", "meth", "const", "bin", "neg", "not", "cmp", "bool", "ifexp", "op",
          "count", "first", "app", "tup", "lst", "dic", "idx", "key", "dattr", "idxv", "idxe", "app2", "keyv", "app0", "idxw"}
 
 
@@ -383,6 +410,8 @@ def namings(term, pool, ctx_names=()):
                 cons.add((b, i))
 
     def nm(names, b):
+        if b == DSID:
+            return "ds"
         return names[b] if b >= 0 else ctx_names[-b - 1]
 
     for names in itertools.product(pool, repeat=nb):
@@ -443,6 +472,15 @@ def render(term, names, ctx_names=()):
             return f"(lambda {nm}: {body})({arg})"
         if tag == "app0":
             return f"(lambda: {r(t[1], stack)})()"
+        if tag == "hof":
+            nf = names[counter[0]]
+            nx = names[counter[0] + 1]
+            counter[0] += 2
+            arg = r(t[2], stack)
+            body = r(t[1], stack + [nx])
+            return f"(lambda {nf}: {nf}({arg}))(lambda {nx}: {body})"
+        if tag == "sidx":
+            return f"{r(t[1], stack)}[{r(t[2], stack)}]"
         if tag == "app2":
             n1 = names[counter[0]]
             n2 = names[counter[0] + 1]
